@@ -265,10 +265,18 @@ pub fn parse_complete<F: LemireFloat, const FORMAT: u128>(
         parse_number!(FORMAT, byte, is_negative, options, parse_complete_number, parse_special);
     // Try the fast-path algorithm.
     if let Some(value) = num.try_fast_path::<_, FORMAT>() {
+        #[cfg(lexical_verif)]
+        lexical_util::verif::set_parse_tier(lexical_util::verif::PARSE_FAST);
         return Ok(value);
     }
     // Now try the moderate path algorithm.
     let mut fp = moderate_path::<F, FORMAT>(&num, options.lossy());
+    #[cfg(lexical_verif)]
+    lexical_util::verif::set_parse_tier(if fp.exp < 0 {
+        lexical_util::verif::PARSE_SLOW
+    } else {
+        lexical_util::verif::PARSE_MODERATE
+    });
 
     // Unable to correctly round the float using the fast or moderate algorithms.
     // Fallback to a slower, but always correct algorithm. If we have
@@ -339,10 +347,18 @@ pub fn parse_partial<F: LemireFloat, const FORMAT: u128>(
     );
     // Try the fast-path algorithm.
     if let Some(value) = num.try_fast_path::<_, FORMAT>() {
+        #[cfg(lexical_verif)]
+        lexical_util::verif::set_parse_tier(lexical_util::verif::PARSE_FAST);
         return Ok((value, count));
     }
     // Now try the moderate path algorithm.
     let mut fp = moderate_path::<F, FORMAT>(&num, options.lossy());
+    #[cfg(lexical_verif)]
+    lexical_util::verif::set_parse_tier(if fp.exp < 0 {
+        lexical_util::verif::PARSE_SLOW
+    } else {
+        lexical_util::verif::PARSE_MODERATE
+    });
 
     // Unable to correctly round the float using the fast or moderate algorithms.
     // Fallback to a slower, but always correct algorithm. If we have
@@ -1057,6 +1073,8 @@ pub fn parse_special<F, const FORMAT: u128>(
 where
     F: LemireFloat,
 {
+    #[cfg(lexical_verif)]
+    lexical_util::verif::set_parse_tier(lexical_util::verif::PARSE_SPECIAL);
     let length = byte.buffer_length();
     if let Some((float, count)) = parse_partial_special::<F, FORMAT>(byte, is_negative, options) {
         if count == length {
